@@ -35,6 +35,9 @@ type ctxDef struct {
 	quick bool
 }
 
+// composite contexts (thorough): the call in context [1], the whole wrapped by [0]
+var composite = map[*ctxDef][2]*ctxDef{}
+
 var ctxs = []ctxDef{
 	{"body", "plain", func(c string) string { return c }, true},
 	{"arg", "plain", func(c string) string { return "(+ 1000 " + c + ")" }, true},
@@ -96,6 +99,9 @@ func argExprs(i, a int, src []string) []string {
 // callExpr renders the call of function j (1-based) with the given argument
 // expressions in context c.
 func callExpr(c *ctxDef, j int, args []string) string {
+	if oi, ok := composite[c]; ok {
+		return oi[0].wrap(callExpr(oi[1], j, args))
+	}
 	name := fmt.Sprintf("@f%d", j)
 	sp := ""
 	if 0 < len(args) {
@@ -502,6 +508,69 @@ func addRebind(out *[]*program) {
 	}
 }
 
+// nestedCtxs: every context that wraps a form (14) around every context (19): the call sits two levels deep.
+func nestedCtxs() (out []*ctxDef) {
+	for oi := range ctxs {
+		o := &ctxs[oi]
+		if o.wrap == nil || o.name == "body" {
+			continue
+		}
+		for ii := range ctxs {
+			in := &ctxs[ii]
+			if in.name == "seq" || in.name == "body" {
+				continue // seq is two forms (body positions only); body adds nothing
+			}
+			class := "plain"
+			switch {
+			case in.class == "hof":
+				class = "hof"
+			case o.class == "special" || in.class == "special":
+				class = "special"
+			}
+			c := &ctxDef{name: o.name + ">" + in.name, class: class}
+			composite[c] = [2]*ctxDef{o, in}
+			out = append(out, c)
+		}
+	}
+	return
+}
+
+// addNested (thorough only): the two-function chain, the closure-reading callee and the rebind family with the call
+// two contexts deep.
+func addNested(out *[]*program) {
+	for _, c := range nestedCtxs() {
+		for a := 1; a <= 2; a++ {
+			p := &program{fam: "calls", id: fmt.Sprintf("calls:chain2:%s:%d:req", c.name, a), thorough: true}
+			p.defs = []string{chainFn(1, 2, a, "req", c, 0), chainFn(2, 0, a, "req", c, 0)}
+			p.alts = []string{chainFn(1, 2, a, "req", c, 1), chainFn(2, 0, a, "req", c, 1)}
+			p.main = "(@f1" + mainArgs(a) + ")"
+			if c.class == "hof" {
+				p.feats = append(p.feats, "function-designator")
+			}
+			*out = append(*out, p)
+			for _, via := range []string{"param", "let"} {
+				body := callExpr(c, 2, argExprs(1, a, []string{"x", "y"}))
+				if via == "let" {
+					body = "(let ((w (* x 3)) (z (+ y 1))) " + callExpr(c, 2, argExprs(1, a, []string{"w", "z"})) + ")"
+				}
+				*out = append(*out, &program{fam: "rebind", id: fmt.Sprintf("rebind:%s:%s:%d", via, c.name, a), thorough: true,
+					feats: []string{"re-evaluated-under-new-bindings"},
+					defs: []string{"(defun @f1 (x y) " + body + ")",
+						fmt.Sprintf("(defun @f2 %s %s)", params(a, "req"), leafValue(a, 0))},
+					alts: []string{"", fmt.Sprintf("(defun @f2 %s %s)", params(a, "req"), leafValue(a, 1))},
+					main: "(list (@f1 1 2) (@f1 3 4) (@f1 1 2))"})
+			}
+		}
+		body := "(+ n (* 10 pa))"
+		*out = append(*out, &program{fam: "closure", id: fmt.Sprintf("closure:read:%s:1", c.name), thorough: true,
+			feats: []string{"closure"},
+			defs: []string{"(defun @f1 (x) " + callExpr(c, 2, argExprs(1, 1, []string{"x"})) + ")",
+				"(let ((n 5)) (defun @f2 " + params(1, "req") + " (tr 'clo " + body + ")))"},
+			alts: []string{"", "(let ((n 8) (k 2)) (defun @f2 " + params(1, "req") + " (tr 'clo2 (* k " + body + "))))"},
+			main: "(@f1 4)"})
+	}
+}
+
 func addData(out *[]*program) {
 	*out = append(*out,
 		&program{fam: "data", id: "data:eval-quoted", feats: []string{"code-as-data"},
@@ -542,6 +611,7 @@ func allPrograms() []*program {
 		addClosures(&progList)
 		addData(&progList)
 		addRebind(&progList)
+		addNested(&progList)
 		progByID = map[string]*program{}
 		for _, p := range progList {
 			if _, dup := progByID[p.id]; dup {
